@@ -2,12 +2,13 @@ import Driver.Dwarf
 import Driver.Cfi
 import Driver.Adt
 import Driver.Abi
+import Driver.IRJson
 
 /-! One JSON request per input line, one JSON answer per output line. -/
 open Lean Driver
 
 def handlers : List (String → Json → Option (Except String Json)) :=
-  [Driver.Dwarf.handle, Driver.Cfi.handle, Driver.Adt.handle, Driver.Abi.handle, Driver.Abi.handleCall]
+  [Driver.Dwarf.handle, Driver.Cfi.handle, Driver.Adt.handle, Driver.Abi.handle, Driver.Abi.handleCall, Driver.IRJson.handle, Driver.IRJson.handleListing]
 
 def dispatch (line : String) : Json :=
   match Json.parse line with
